@@ -95,12 +95,33 @@ def run(ctx):
     ctx.key_filter = None
     c = summ.get("counts", {})
     cov["repeated-renders-of-flow-documents"] = {"documents": c.get("documents", 0), "renders": c.get("renders", 0)}
+    # determinism on the documents of Docs.tla (the document space of C01: every feature bundle)
+    from checks import c01
+    dres = ctx.tlc("Docs", None, workers=8, cfg_text=c01.DOCS_CFG % (1, "all", c01.q(["normal", "tiny"]), c01.q(["none"]), c01.q(["none", "margins"]), "SPECIFICATION Spec", "EmitAll"), timeout=3000)
+    scn1, cnt1, first1 = ctx.scenario_lines(dres)
+    if thorough:
+        dres2 = ctx.tlc("Docs", None, workers=8, cfg_text=c01.DOCS_CFG % (2, "all", c01.q(["tiny"]), c01.q(["none"]), c01.q(["none"]), "SPECIFICATION Spec", "EmitAll"), timeout=3000)
+    else:
+        dres2 = ctx.tlc("Docs", None, workers=8, cfg_text=c01.DOCS_CFG % (2, "core", c01.q(["tiny"]), c01.q(["none"]), c01.q(["none"]), "SPECIFICATION Spec", "EmitAll"), timeout=3000)
+    scn2, cnt2, first2 = ctx.scenario_lines(dres2)
+    with open(scn1, "a") as f:
+        f.write(open(scn2).read())
+    ver = os.path.join(ctx.scratch, "ver_docs.ndjson")
+    ctx.vdrive(["c15docs", "-in", scn1, "-out", ver, "-timeout", "60s"])
+    ctx.key_filter = "C15:"
+    ctx.rekey = lambda r: ("C01:" + r["key"]) if (r["key"].startswith("timeout") or r["key"].startswith("fatal") or r["key"].startswith("panic")) else r["key"]
+    summ = ctx.consume_verdicts(ver)
+    ctx.key_filter = None
+    ctx.rekey = None
+    c = summ.get("counts", {})
+    cov["repeated-renders-of-Docs.tla-documents"] = {"documents": c.get("documents", 0), "renders": c.get("renders", 0), "skipped_crashing": c.get("skipped-crashing-documents", 0)}
     ctx.traces = sum(v.get("schedules", 0) for v in cov.values() if isinstance(v, dict))
     return ctx.finish("model_checking", {
         "exhaustive": True, "evaluations": sum(v.get("renders", 0) for v in cov.values() if isinstance(v, dict)), "families": cov,
         "rule": "every interleaving of the 3 phases of 2 renders x every ordered pair of pool documents ; seeded samples of 3 (and 4) "
                 "renders; pool of 10 documents (anchors and links, broken floats, counters, tables with header/footer, columns and flex, named strings and bookmarks, "
-                "hyphenation and ex/ch units, positioned and running elements, two documents binding one font family name to different fonts with @font-face); Flow.tla documents rendered 4 times each",
+                "hyphenation and ex/ch units, positioned and running elements, two documents binding one font family name to different fonts with @font-face); Flow.tla documents rendered 4 times each; "
+                "every 1-node document of Docs.tla (all feature bundles x 2 geometries x 2 extras) and the 2-node documents over the core bundles rendered 3 times each",
     }, assumptions=[
         "the harness is built with -race; GORACE=halt_on_error=1; a schedule orders the STARTS of the phases (they overlap in time)",
         "each render has its own pango font configuration; the default (html5) user-agent style sheet is shared, as in normal use",
